@@ -99,7 +99,7 @@ def run_sync(pl, script, client, mod, c):
         kw['metadata'] = md
     if c.get('timeout') is not None:
         kw['timeout'] = float(c['timeout'])
-    pager = getattr(client, m['snake'])(request=base, **kw)
+    pager = getattr(client, m['snake'])(request=(c.get('_reqobj') if c.get('_reqobj') is not None else base), **kw)
     for x in pager:
         events.append(dict(ev='yield', item=item_id(c['kind'], x), attr=int(pager.total), token=0, others='', opts=''))
     events.append(dict(ev='stop', attr=int(pager.total), item=0, token=0, others='', opts=''))
@@ -117,7 +117,7 @@ async def run_async(pl, script, client, mod, c):
         kw['metadata'] = md
     if c.get('timeout') is not None:
         kw['timeout'] = float(c['timeout'])
-    pager = await getattr(client, m['snake'])(request=base, **kw)
+    pager = await getattr(client, m['snake'])(request=(c.get('_reqobj') if c.get('_reqobj') is not None else base), **kw)
     async for x in pager:
         events.append(dict(ev='yield', item=item_id(c['kind'], x), attr=int(pager.total), token=0, others='', opts=''))
     events.append(dict(ev='stop', attr=int(pager.total), item=0, token=0, others='', opts=''))
@@ -132,32 +132,43 @@ def main():
     try:
         if 'sync' in pl['modes']:
             mod, client, ch = rt.grpc_client(pl['module'], pl['service_snake'], pl['service'], srv.target, script.chlog)
-            for c in pl['cases']:
-                script.case, script.events = c, []
-                del script.chlog[:]
-                err = None
-                try:
-                    run_sync(pl, script, client, mod, c)
-                except Exception as e:
-                    err = f'{type(e).__name__}: {e}'[:300]
-                    script.events.append(dict(ev='raise', item=0, attr=0, token=0, others=type(e).__name__, opts=''))
-                traces.append(dict(id=c['id'], mode='sync', kind=c['kind'], history=c['pages'],
-                                   ordered=c['kind'] != 'map', events=script.events, error=err))
-        if 'async' in pl['modes']:
-            async def amain():
-                mod, client, ch = rt.grpc_client(pl['module'], pl['service_snake'], pl['service'], srv.target,
-                                                 script.chlog, asyncio_=True)
-                for c in pl['cases']:
+            for c0 in pl['cases']:
+                # a caller may build ONE request message and list twice with it: both listings must start at the first page
+                rounds = [dict(c0)]
+                if c0.get('reuse'):
+                    obj = getattr(mod, pl['methods'][c0['kind']]['name'] + 'Request')(**c0['base'])
+                    rounds = [dict(c0, _reqobj=obj), dict(c0, _reqobj=obj, id=c0['id'] + ':again')]
+                for c in rounds:
                     script.case, script.events = c, []
                     del script.chlog[:]
                     err = None
                     try:
-                        await run_async(pl, script, client, mod, c)
+                        run_sync(pl, script, client, mod, c)
                     except Exception as e:
                         err = f'{type(e).__name__}: {e}'[:300]
                         script.events.append(dict(ev='raise', item=0, attr=0, token=0, others=type(e).__name__, opts=''))
-                    traces.append(dict(id=c['id'], mode='async', kind=c['kind'], history=c['pages'],
+                    traces.append(dict(id=c['id'], mode='sync', kind=c['kind'], history=c['pages'],
                                        ordered=c['kind'] != 'map', events=script.events, error=err))
+        if 'async' in pl['modes']:
+            async def amain():
+                mod, client, ch = rt.grpc_client(pl['module'], pl['service_snake'], pl['service'], srv.target,
+                                                 script.chlog, asyncio_=True)
+                for c0 in pl['cases']:
+                    rounds = [dict(c0)]
+                    if c0.get('reuse'):
+                        obj = getattr(mod, pl['methods'][c0['kind']]['name'] + 'Request')(**c0['base'])
+                        rounds = [dict(c0, _reqobj=obj), dict(c0, _reqobj=obj, id=c0['id'] + ':again')]
+                    for c in rounds:
+                        script.case, script.events = c, []
+                        del script.chlog[:]
+                        err = None
+                        try:
+                            await run_async(pl, script, client, mod, c)
+                        except Exception as e:
+                            err = f'{type(e).__name__}: {e}'[:300]
+                            script.events.append(dict(ev='raise', item=0, attr=0, token=0, others=type(e).__name__, opts=''))
+                        traces.append(dict(id=c['id'], mode='async', kind=c['kind'], history=c['pages'],
+                                           ordered=c['kind'] != 'map', events=script.events, error=err))
                 await ch.close()
             asyncio.run(amain())
     finally:
